@@ -7,7 +7,7 @@
       bool      strconv.ParseBool — complete
       string    identity — complete
       (u)int*   strconv.ParseInt/ParseUint(s, 0, 64) — complete for texts without '_'
-                (IntSize = 64 is assumed for int/uint)
+                (int/uint are bounded by the platform's IntSize, [o_int_size])
       duration  time.ParseDuration — complete for texts without '.'
       []byte    base64.StdEncoding.DecodeString — complete for texts without CR/LF
       float64   strconv.ParseFloat — not modelled (always the oracle); a float value is
@@ -30,7 +30,12 @@ Inductive value :=
 
 Inductive sres := SOk (v : value) | SErr.
 
-Definition oracle := kind -> list N -> sres.
+(** What lies outside the model about the platform: the word size (strconv.IntSize, 32 or 64;
+    bounds the kinds int and uint) and the standard-library parsers outside the sub-language. *)
+Record oracle := { o_int_size : N; o_parse : kind -> list N -> sres }.
+
+Definition oracle_agree (o1 o2 : oracle) : Prop :=
+  o_int_size o1 = o_int_size o2 /\ forall k t, o_parse o1 k t = o_parse o2 k t.
 
 Definition zero (k : kind) : value :=
   match k with
@@ -56,7 +61,7 @@ Definition parse_bool (s : list N) : sres :=
   then SOk (VBool false)
   else SErr.
 
-(** ** strconv.ParseUint(s, 0, 64) for texts without '_' *)
+(** ** strconv.ParseUint(s, 0, bitSize) for texts without '_'; [maxv] = 1<<bitSize - 1 *)
 Definition max_u64 : N := 18446744073709551615.
 Definition two63 : N := 9223372036854775808.
 
@@ -68,7 +73,7 @@ Definition digit_val (c : N) : option N :=
 
 Inductive ures := UOk (n : N) | USyntax | URange.
 
-Fixpoint digits_loop (base : N) (s : list N) (n : N) : ures :=
+Fixpoint digits_loop (base maxv : N) (s : list N) (n : N) : ures :=
   match s with
   | [] => UOk n
   | c :: r =>
@@ -77,40 +82,41 @@ Fixpoint digits_loop (base : N) (s : list N) (n : N) : ures :=
       | Some d =>
           if base <=? d then USyntax
           else let n1 := n * base + d in
-               if max_u64 <? n1 then URange else digits_loop base r n1
+               if maxv <? n1 then URange else digits_loop base maxv r n1
       end
   end.
 
-Definition parse_uint (s : list N) : ures :=
+Definition parse_uint (maxv : N) (s : list N) : ures :=
   match s with
   | [] => USyntax
   | c0 :: r0 =>
       if c0 =? 48 then
         match r0 with
         | c1 :: ((_ :: _) as r1) =>
-            if (c1 =? 98) || (c1 =? 66) then digits_loop 2 r1 0
-            else if (c1 =? 111) || (c1 =? 79) then digits_loop 8 r1 0
-            else if (c1 =? 120) || (c1 =? 88) then digits_loop 16 r1 0
-            else digits_loop 8 r0 0
-        | _ => digits_loop 8 r0 0
+            if (c1 =? 98) || (c1 =? 66) then digits_loop 2 maxv r1 0
+            else if (c1 =? 111) || (c1 =? 79) then digits_loop 8 maxv r1 0
+            else if (c1 =? 120) || (c1 =? 88) then digits_loop 16 maxv r1 0
+            else digits_loop 8 maxv r0 0
+        | _ => digits_loop 8 maxv r0 0
         end
-      else digits_loop 10 s 0
+      else digits_loop 10 maxv s 0
   end.
 
-Definition set_uint (s : list N) : sres :=
-  match parse_uint s with UOk n => SOk (VUint n) | _ => SErr end.
+Definition set_uint (bits : N) (s : list N) : sres :=
+  match parse_uint (2 ^ bits - 1) s with UOk n => SOk (VUint n) | _ => SErr end.
 
-(** ** strconv.ParseInt(s, 0, 64) *)
-Definition set_int (s : list N) : sres :=
+(** ** strconv.ParseInt(s, 0, bitSize) *)
+Definition set_int (bits : N) (s : list N) : sres :=
   match s with
   | [] => SErr
   | c :: r =>
       let neg := c =? 45 in
       let body := if (c =? 43) || (c =? 45) then r else s in
-      match parse_uint body with
+      let half := 2 ^ (bits - 1) in
+      match parse_uint (2 ^ bits - 1) body with
       | UOk un =>
-          if neg then (if two63 <? un then SErr else SOk (VInt (- Z.of_N un)))
-          else (if two63 <=? un then SErr else SOk (VInt (Z.of_N un)))
+          if neg then (if half <? un then SErr else SOk (VInt (- Z.of_N un)))
+          else (if half <=? un then SErr else SOk (VInt (Z.of_N un)))
       | _ => SErr
       end
   end.
@@ -249,14 +255,16 @@ Definition set_T (o : oracle) (k : kind) (s : list N) : sres :=
       if in_model k s then
         match k with
         | KBool => parse_bool s
-        | KInt | KInt64 => set_int s
-        | KUint | KUint64 => set_uint s
+        | KInt => set_int (o_int_size o) s        (* strconv.IntSize *)
+        | KInt64 => set_int 64 s
+        | KUint => set_uint (o_int_size o) s
+        | KUint64 => set_uint 64 s
         | KString => SOk (VString s)
-        | KFloat => o k s
+        | KFloat => o_parse o k s
         | KDuration => set_duration s
         | KBytes => set_bytes s
         end
-      else o k s
+      else o_parse o k s
   end.
 
 Definition is_bool_kind (k : kind) : bool := match k with KBool => true | _ => false end.
